@@ -25,12 +25,13 @@ XCancelRecv    == CancelRecv /\ Keep
 XAppSend       == AppSend /\ Keep
 XSendRet       == SendRet /\ Keep
 XAppClose      == AppClose /\ Keep
+XCloseSent     == CloseSent /\ Keep
 XCloseFinish   == CloseFinish /\ Keep
 XNext == XSrvArrive \/ XPumpLoop \/ XPumpGot \/ XPumpCheck \/ XPumpWake \/ XPumpCancelled \/ XAppRecv \/ XRecvLoop
-         \/ XRecvWake \/ XRecvRawRet \/ XCancelRecv \/ XAppSend \/ XSendRet \/ XAppClose \/ XCloseFinish
+         \/ XRecvWake \/ XRecvRawRet \/ XCancelRecv \/ XAppSend \/ XSendRet \/ XAppClose \/ XCloseSent \/ XCloseFinish
 XSpec == XInit /\ [][XNext]_mcvars
 XFairSpec == XSpec /\ WF_mcvars(XPumpLoop \/ XPumpGot \/ XPumpCheck \/ XPumpWake \/ XPumpCancelled)
-                   /\ WF_mcvars(XRecvLoop \/ XRecvWake \/ XRecvRawRet \/ XSendRet \/ XCloseFinish)
+                   /\ WF_mcvars(XRecvLoop \/ XRecvWake \/ XRecvRawRet \/ XSendRet \/ XCloseSent \/ XCloseFinish)
                    /\ WF_mcvars(XSrvArrive)
 XSenderLearnsPromptly == [][(apc = "idle" /\ apc' = "sending") => ~disc]_mcvars
 
